@@ -416,7 +416,13 @@ def build_for(case):
                     arena.log('adjust', 'set', op['amounts'])
                     await resource.set(**op['amounts'])
         participants = [(spec['name'], user(spec)) for spec in scenario['users']]
-        background = [adjuster()] if scenario['adjust'] else []
+        background = []
+        if scenario['adjust'] and case['index'] % 2:
+            # whoever adjusts the supply can be struck like anybody else (an adjustment is made
+            # when it is called; what strikes its caller afterwards does not take it back)
+            participants.append(('adjuster', adjuster))
+        elif scenario['adjust']:
+            background = [adjuster()]
         return participants, background, ledger
     return build
 
